@@ -13,6 +13,7 @@
     Crew.GetChanged    crew.go:320     [get_changed] ([report_of], [suppress])
     Crew.change        crew.go:146     [touch]
     Crew.SetMachine    crew.go:171     [set_machine]
+    ResolveSpecSource  crew.go:574     [resolves], [resolved]
     Crew.DeleteMachine crew.go:243     [delete_machine]
     AsCrewOp, DoOp     captainspec.go  [as_crew_op], [do_op]
     captain "do" node  captainspec.go  [present] (captain branch; [wedged])
@@ -104,6 +105,8 @@ Section Crew.
 Variable S : Type.                                   (* specification sources *)
 Variable react : S -> mid -> mstate -> json -> option mstate * list json.
 Variable decode_src : json -> option S.              (* the "spec" member of a machine in a crew operation *)
+Variable resolves : S -> bool.                       (* [ResolveSpecSource] finds a specification for the source (a source
+                                                        with neither "inline" nor "url" resolves to nothing, without error) *)
 Variable src_eqb : S -> S -> bool.                   (* equality of the JSON texts of two sources *)
 Variable ord : forall A : Type, list (mid * A) -> list (mid * A).   (* Go map iteration order *)
 
@@ -131,14 +134,29 @@ Definition with_cache (c : crew) ch := mk_crew (machines c) (wedged c) ch (previ
 Definition cache_get (c : crew) (m : mid) : chg :=
   match aget m (cache c) with Some ch => ch | None => no_chg end.
 
+(** what [ResolveSpecSource] makes of a given source: the source itself
+    (a JSON copy of it) together with its specification, or nothing at all
+    ([nil, nil, nil]: neither "inline" nor "url") *)
+Definition resolved (src : option S) : option S :=
+  match src with
+  | Some s => if resolves s then Some s else None
+  | None => None
+  end.
+
 (** [Crew.SetMachine] for an ordinary id (after D13: the state of an
-    existing machine is replaced; after D42: a creation is a change) *)
+    existing machine is replaced; after D42: a creation is a change).
+    A given source REPLACES the machine's source by what it resolves to: a
+    source that resolves to nothing leaves the machine without source and
+    specification (inert: [present] shows it no message), while the cached
+    change - and with it the report and the consumer's store - carries the
+    source as given. *)
 Definition set_machine (c : crew) (m : mid) (src : option S) (st : option mstate) : crew :=
   let st' := option_map defaulted st in
   let old := aget m (machines c) in
   let mc := match old with
-            | Some mc => mk_mach (or_else src (m_src mc)) (match st' with Some s => s | None => m_state mc end)
-            | None => mk_mach src (match st' with Some s => s | None => default_state end)
+            | Some mc => mk_mach (match src with Some _ => resolved src | None => m_src mc end)
+                                 (match st' with Some s => s | None => m_state mc end)
+            | None => mk_mach (resolved src) (match st' with Some s => s | None => default_state end)
             end in
   let c1 := with_machines c (aset m mc (machines c)) in
   if negb (is_some old) || is_some src || is_some st then
